@@ -64,6 +64,10 @@ func (raceStream) Generate(rng *rand.Rand, tier string, emit func(Case)) {
 	for _, o := range []string{"ListDevices", "InjectDevices", "GetSpecDirErrors", "GetErrors", "WriteSpec", "RemoveSpec"} {
 		mk([]string{o}, true)
 	}
+	// a cache without any Spec directory (the operations' error paths)
+	for _, ops := range [][]string{{"RemoveSpec", "ListDevices"}, {"WriteSpec", "GetErrors"}, {"RemoveSpec", "WriteSpec", "Configure", "Refresh", "InjectDevices"}} {
+		emit(Case{"op": "race", "ops": strs2any(ops), "iters": iters, "auto": true, "nodirs": true, "seed": rng.Int63()})
+	}
 	// everything at once
 	n := 2
 	if tier == "thorough" {
@@ -199,10 +203,11 @@ func flipNames(state string) []string {
 
 func childRacer(args []string) int {
 	var c struct {
-		Ops   []string `json:"ops"`
-		Iters int      `json:"iters"`
-		Auto  bool     `json:"auto"`
-		Seed  int64    `json:"seed"`
+		Ops    []string `json:"ops"`
+		Iters  int      `json:"iters"`
+		Auto   bool     `json:"auto"`
+		NoDirs bool     `json:"nodirs"`
+		Seed   int64    `json:"seed"`
 	}
 	if err := json.Unmarshal([]byte(args[0]), &c); err != nil {
 		fmt.Fprintln(os.Stderr, "racer: bad args")
@@ -219,7 +224,11 @@ func childRacer(args []string) int {
 	_ = os.WriteFile(filepath.Join(d0, "static.json"), b, 0o644)
 	_ = os.WriteFile(filepath.Join(d1, "flip.json"), flipSpec("A"), 0o644)
 
-	cache, _ := cdi.NewCache(cdi.WithSpecDirs(d0, d1), cdi.WithAutoRefresh(c.Auto))
+	dirs := []string{d0, d1}
+	if c.NoDirs {
+		dirs = nil
+	}
+	cache, _ := cdi.NewCache(cdi.WithSpecDirs(dirs...), cdi.WithAutoRefresh(c.Auto))
 	defer func() { _ = cache.Configure(cdi.WithAutoRefresh(false)) }()
 
 	aNames, bNames := flipNames("A"), flipNames("B")
@@ -234,6 +243,9 @@ func childRacer(args []string) int {
 		mu.Unlock()
 	}
 	classify := func(what string, names []string) {
+		if c.NoDirs {
+			return
+		}
 		var flip []string
 		for _, n := range names {
 			if strings.HasPrefix(n, "flip.com/") {
@@ -291,7 +303,7 @@ func childRacer(args []string) int {
 				atomic.AddInt64(&calls, 1)
 				switch op {
 				case "Configure":
-					_ = cache.Configure(cdi.WithSpecDirs(d0, d1), cdi.WithAutoRefresh(c.Auto || it%2 == 0))
+					_ = cache.Configure(cdi.WithSpecDirs(dirs...), cdi.WithAutoRefresh(c.Auto || it%2 == 0))
 				case "Refresh":
 					_ = cache.Refresh()
 				case "ListDevices":
@@ -311,7 +323,7 @@ func childRacer(args []string) int {
 							mix("InjectDevices: env %v after success", o.Process.Env)
 						}
 						atomic.AddInt64(&sawA, 1)
-					case len(unresolved) == len(aNames) && len(o.Process.Env) == 0:
+					case c.NoDirs || (len(unresolved) == len(aNames) && len(o.Process.Env) == 0):
 						atomic.AddInt64(&sawB, 1)
 					default:
 						mix("InjectDevices: unresolved %v, env %v", unresolved, o.Process.Env)
@@ -336,7 +348,7 @@ func childRacer(args []string) int {
 					for range cache.GetErrors() {
 					}
 				case "GetSpecDirectories":
-					if ds := cache.GetSpecDirectories(); len(ds) != 2 {
+					if ds := cache.GetSpecDirectories(); len(ds) != len(dirs) {
 						mix("GetSpecDirectories: %v", ds)
 					}
 				case "GetSpecDirErrors":
